@@ -148,7 +148,7 @@ def families(pool):
     for n in pool:
         r = R.get(n)
         fam[n.split("@")[0]].append(n)
-        for t in ("exprfam", "points", "twin"):
+        for t in ("exprfam", "points", "twin", "npstr"):
             if t in r.tags:
                 fam["tag:" + t].append(n)
     return [sorted(v) for k, v in sorted(fam.items()) if len(v) >= 2]
@@ -247,8 +247,12 @@ def gen_history(seed, mode, thorough, hashseed):
             ops.append(["churn", rng.choice([10, 100, 1000]), rng.choice([16, 100, 4096])])
         elif c < 0.9:
             ops.append(["options", "verbosity", rng.choice([10, 20, 30, 40])])
+        elif c < 0.95:
+            ops.append(["nprint", rng.choice(["low", "low", "high", "legacy"])])
         else:
             ops.append(["options", rng.choice(["chdir", "get"])])
+    if any("npstr" in R.get(d).tags for d in ds) and rng.random() < 0.5:
+        ops.insert(rng.randrange(len(ops) + 1), ["nprint", rng.choice(["low", "low", "high", "legacy"])])
     pending = []  # (slot, dname)
     nslot = 0
     # the simulator's estimate of UFL's global counters (Coefficient, Constant, Mesh), used for
@@ -338,7 +342,9 @@ def gen_history(seed, mode, thorough, hashseed):
                 ops.append(["churn", rng.choice([10, 500]), rng.choice([24, 512])])
             elif c < 0.40:
                 ops.append(["options", "scalar", rng.choice(["float32", "complex128"])])
-            elif c < 0.52 and len(pending) > 0:
+            elif c < 0.44:
+                ops.append(["nprint", rng.choice(["low", "low", "high", "legacy", "default"])])
+            elif c < 0.56 and len(pending) > 0:
                 # the objects of one request die: addresses (id()) become reusable
                 ds_, dn_ = pending.pop(rng.randrange(len(pending)))
                 ops.append(["drop", ds_])
@@ -372,7 +378,13 @@ def _canon_FE(text):
     return "\n".join(sorted(re.sub(r"\bFE\d+_", "FE#_", text).splitlines()))
 
 
+def _canon_sighash(text):
+    text = re.sub(r"(integral|form|expression)_[0-9a-f]{40}", r"\1_#", text)
+    return re.sub(r"""signature\s*=\s*(["'])[0-9a-f]{128}["']""", r"signature = \1#\1", text)
+
+
 SITES = [
+    ("signature-hash-in-names", _canon_sighash),
     ("section-io-comment-order", _canon_io),
     ("J-symbol-uses-ufl_id", _canon_J),
     ("FE-table-numbering", _canon_FE),
@@ -438,13 +450,23 @@ def check_history(scn, res, goldens, prop):
             for f in text_fields(o):
                 if o.get(f + "_sha") != g.get(f + "_sha"):
                     for site, excerpt in classify(g.get(f, ""), o.get(f, "")):
+                        if site == "signature-hash-in-names" and o.get("np_print_exposed") \
+                                and "npstr" in R.get(o["D"]).tags:
+                            # same cause as C13's N-STABLE/module/np-printoptions: the object
+                            # names embed the UFL signature, which str()'s numpy arrays
+                            site += "/np-printoptions"
                         v.append({"key": "G-TEXT/" + site, "at": o["at"], "D": o["D"],
                                   "field": f, "okey": obs_key(o), "detail": excerpt})
         else:
             if o["kind"] != "jit":
                 continue
             if o.get("module_name") != g.get("module_name"):
-                v.append({"key": "N-STABLE/module", "at": o["at"], "D": o["D"], "okey": obs_key(o),
+                key = "N-STABLE/module"
+                if o.get("np_print_exposed") and "npstr" in R.get(o["D"]).tags:
+                    # arrays inside the UFL/basix signature were str()'d under non-default numpy
+                    # print options: a distinct, separately listed cause
+                    key = "N-STABLE/module/np-printoptions"
+                v.append({"key": key, "at": o["at"], "D": o["D"], "okey": obs_key(o),
                           "detail": f"{o.get('module_name')} != golden {g.get('module_name')}"})
             elif o.get("object_names") != g.get("object_names"):
                 v.append({"key": "N-STABLE/object", "at": o["at"], "D": o["D"], "okey": obs_key(o),
@@ -620,13 +642,19 @@ def history_stats(scn, res):
     st["ops"] = len(ops)
     st["observations"] = len(res.get("obs", []))
     meshes_before = 0
+    nprint = False
+    slot_req = {}
     compiled_before = set()
     seen_slots = Counter()
     for i, op in enumerate(ops):
         if op[0] == "create":
             if op[1] in ("mesh", "mesh3", "space", "coefficient", "constant", "argument"):
                 meshes_before += op[2]
+        elif op[0] == "nprint":
+            nprint = op[1] != "default"
+            st["probe_nprint_ops"] += 1
         elif op[0] == "build":
+            slot_req[op[1]] = op[2]
             for g in op[3]:
                 if g[1] in ("mesh", "mesh3", "space", "coefficient", "constant", "argument"):
                     meshes_before += g[2]
@@ -637,6 +665,8 @@ def history_stats(scn, res):
             if meshes_before >= 5:
                 st["probe_obs_after_5_unrelated_meshes"] += 1
             if op[0] != "cli":
+                if nprint and "npstr" in R.get(slot_req.get(op[1], "mass_p1_interval")).tags:
+                    st["probe_obs_array_signature_under_nprint"] += 1
                 seen_slots[op[1]] += 1
                 if seen_slots[op[1]] == 2:
                     st["probe_same_objects_compiled_twice"] += 1
@@ -648,6 +678,7 @@ def history_stats(scn, res):
                 st["probe_cli"] += 1
             compiled_before.add(op[1])
         elif op[0] == "reform":
+            slot_req[op[2]] = slot_req.get(op[1], "mass_p1_interval")
             st["probe_reform"] += 1
     st["hashseed_nonzero"] = int(scn["hashseed"] != 0)
     return dict(st)
@@ -925,6 +956,7 @@ def run_check(prop, tier, base, replay_path=None):
             "gaps_inside_build": stats["probe_build_with_gaps"],
             "prior_compilation_in_process": stats["probe_obs_after_other_compile"],
             "recompile_same_objects": stats["probe_same_objects_compiled_twice"],
+            "numpy_printoptions_changed": stats["probe_nprint_ops"],
         },
         "probes": probes,
         "determinism_selftest": {"histories": ndet, "digest_mismatches": nondet},
